@@ -46,6 +46,7 @@ DESCRIBE = {
 }
 
 FORK_MODES = [None, "REF", "COPY"]
+HASH_ORDER_SENSITIVE = {"nll_regul_ind_sum_ind", "nll_regul_ind_sum"}
 
 
 def _fork(mode):
@@ -598,7 +599,8 @@ def run_plan(plan: dict) -> dict:
         finally:
             ctx.real = False
         exp = _outcome_ref(r.evaluator(), nm)
-        log.add("read", sid, nm, got[0], tdigest(got[1]) if got[0] == "ok" else got[1][:40])
+        # (values below leaspy's set-ordered automatic sum depend on PYTHONHASHSEED -- a C11 matter -- and stay out of the digest)
+        log.add("read", sid, nm, got[0], (tdigest(got[1]) if nm not in HASH_ORDER_SENSITIVE else "-") if got[0] == "ok" else got[1][:40])
         if got[0] == "boom":
             probes["probe.definition_raised_midread"] += 1
             probes["fault.raising_definition"] += 1
